@@ -1,8 +1,11 @@
 #!/bin/bash
 # tools/selftest.sh [silence N | seeds | all]
 #   silence N : every check, quick tier, VERIF_SEED=0..N-1 on the unchanged tree; every run must exit 0
-#   seeds     : every seeded/<name>/patch.diff is applied to /repo (and undone straight afterwards);
-#               the property's own quick check must exit 1 with a VIOLATION line
+#   seeds     : C01..C17 seeds run in parallel scratch copies (tools/mutants.py seeds: worktree + private
+#               harness copy per seed, /repo untouched) against the native monitor of their own property;
+#               C18 seeds (whose check is the layers/c18.py driver) are applied to /repo one at a time
+#               (and undone straight afterwards); every one must be reported as a violation
+#   seeds-serial : the original serial form for every seed through ./check (slow: one harness rebuild per seed)
 # Refuses to run when /repo has uncommitted changes.
 set -u
 cd /verif
@@ -20,7 +23,14 @@ if [ "$mode" = silence ] || [ "$mode" = all ]; then
   done
 fi
 if [ "$mode" = seeds ] || [ "$mode" = all ]; then
+  [ -n "${SKIP_PARALLEL:-}" ] || python3 tools/mutants.py seeds -j 12 > .build/selftest-seeds-parallel.log 2>&1
+  grep -v " caught " .build/selftest-seeds-parallel.log | sed 's/^/MISSED   /' && true
+  n=$(grep -c " caught " .build/selftest-seeds-parallel.log); echo "caught   $n seeds of C01..C17 (parallel scratch copies)"
+  if grep -qv " caught " .build/selftest-seeds-parallel.log; then fail=1; fi
+fi
+if [ "$mode" = seeds ] || [ "$mode" = all ] || [ "$mode" = seeds-serial ]; then
   for d in seeded/*/; do
+    case "$mode:$(basename $d)" in seeds-serial:*) ;; *:C18-*) ;; *) continue ;; esac
     name=$(basename $d); id=$(jq -r .property $d/meta.json | cut -c1-3)
     git -C /repo apply /verif/$d/patch.diff || { echo "PATCH DOES NOT APPLY: $name"; fail=1; continue; }
     ./check $id quick > .build/selftest.out 2>&1; rc=$?
